@@ -1378,7 +1378,7 @@ class Generator:
             "tags": list(tags), "trusted": bool(opts.get("trusted")), "gen_lines": [gen_start, gen_end],
             "awaits": len(awaits), "loops": len(loops_info),
             "norm_sha": hashlib.sha256(" ".join(norm_tokens).encode()).hexdigest(),
-            "name": loc["name"],
+            "name": loc["name"], "emitted_name": opts.get("rename") or loc["name"],
         })
         self._fidelity(iid, gen_start, gen_end, norm_tokens)
 
@@ -1464,6 +1464,8 @@ class Generator:
         want = []
         for t in norm_tokens:
             want += [x.text for x in code(lex(t))]
+        if "".join(got) == "".join(want):
+            return   # token boundaries may differ where rewritten text meets source (`>` `>` vs `>>`)
         if got != want:
             for n, (g, w) in enumerate(zip(got, want)):
                 if g != w:
